@@ -309,7 +309,18 @@ def _prog_named(E, f, g, h):
     a4 = A.new_unit('xsq2', None, Term(((x0, 2), (7, 3))))               # int with exponent 3 after the unit
     which = E.choice('type', ['length', 'area', 'per-length'])
     if which == 'length':
-        return X, [x0, g1, g2, g3, g4], {x0: 1, g1: f, g2: h, g3: 5, g4: 12}
+        # units declared with SI prefixes (exponents from the harness' own table)
+        import quantity.si_prefixes as sp
+        exps = {'KILO': 3, 'MILLI': -3, 'ZEPTO': -21, 'ZETTA': 21, 'YOCTO': -24, 'DECA': 1, 'ATTO': -18, 'EXA': 18}
+        pu, ps = [], {}
+        for nm, ex in sorted(exps.items()):
+            u_ = X.new_unit('p' + nm.lower(), None, getattr(sp, nm) * x0)
+            pu.append(u_)
+            ps[u_] = Fraction(10) ** ex
+        sel = pu[:4] if E.choice('prefix-half', [0, 1]) == 0 else pu[4:]
+        S_ = {x0: 1, g1: f, g2: h, g3: 5, g4: 12}
+        S_.update({u_: ps[u_] for u_ in sel})
+        return X, [x0, g1, g2, g3, g4] + sel, S_
     if which == 'area':
         return A, [a0, a1, a2, a3, a4], {a0: 1, a1: 100, a2: 100, a3: 48, a4: 343}
     # units declared by the reciprocal of (normalised) definitions of other units
